@@ -317,13 +317,8 @@ func (d *driver) crashScenario() {
 	if kind != "ok" {
 		return
 	}
-	d.c.mu.Lock()
-	d.c.liveCtx[key] = true
-	a, _ := d.c.sendLocked("rebuild", key, map[string]interface{}{"command": "rebuild", "key": key}, false, false, "")
-	b, _ := d.c.sendLocked("cancel", key, map[string]interface{}{"command": "cancel", "key": key}, false, false, "")
-	cc, _ := d.c.sendLocked("dispose", key, map[string]interface{}{"command": "dispose", "key": key}, false, false, "")
-	d.c.mu.Unlock()
-	d.awaitAll([]*reqInfo{a, b, cc})
+	// one write: the three packets are decoded before any of their goroutines runs
+	d.awaitAll(d.c.sendBatch([]string{"rebuild", "cancel", "dispose"}, key))
 }
 
 func (d *driver) oneShot() {
@@ -509,6 +504,9 @@ func runSession(o sessionOpts, id int, seed int64, profile string) *session {
 	d := &driver{c: c, o: o, s: s, rnd: &lockedRand{r: rand.New(rand.NewSource(seed ^ 0x2545f491))}, dir: dir,
 		plugOf: map[int]string{}, profile: profile, deadline: time.Now().Add(o.hangTime), kinds: s.Kinds}
 	c.onRequest = d.onRequest
+	// (while the nil dereference in the cancel relay was unfixed only the
+	// "unsafe" and "crash" profiles sent dispose with a cancel outstanding)
+	d.unsafe = rnd.Intn(4) > 0
 
 	var wg sync.WaitGroup
 	run := func(fn func()) {
